@@ -77,6 +77,51 @@ class FeedServer(threading.Thread):
                 elif kind == "accept":
                     if not self._accept(step[1]):
                         break
+                elif kind == "saturate":
+                    # the server is alive but does not accept: fill the accept queue with dummy
+                    # connections for step[1] seconds, so that further connects time out; then drain
+                    dummies = []
+                    for _ in range(12):
+                        d = socket.socket(socket.AF_INET, socket.SOCK_STREAM)
+                        d.setblocking(False)
+                        try:
+                            d.connect(("127.0.0.1", self.port))
+                        except (BlockingIOError, OSError):
+                            pass
+                        dummies.append(d)
+                    self.log.append((time.monotonic(), "saturated", len(dummies)))
+                    end = time.monotonic() + step[1]
+                    while time.monotonic() < end and not self.stop.is_set():
+                        time.sleep(0.1)
+                    ports = set()
+                    for d in dummies:
+                        try:
+                            ports.add(d.getsockname()[1])
+                        except OSError:
+                            pass
+                    # drain: dummy connections are closed, the first foreign connection is the client
+                    self.sock.settimeout(step[2] if len(step) > 2 else 30.0)
+                    got = False
+                    try:
+                        while not got:
+                            c, peer = self.sock.accept()
+                            if peer[1] in ports:
+                                c.close()
+                                continue
+                            c.setsockopt(socket.IPPROTO_TCP, socket.TCP_NODELAY, 1)
+                            self.conn = c
+                            self.connections += 1
+                            self.log.append((time.monotonic(), "accepted", self.connections))
+                            got = True
+                    except OSError as e:
+                        self.error = f"accept after saturation: {e}"
+                    for d in dummies:
+                        try:
+                            d.close()
+                        except OSError:
+                            pass
+                    if not got:
+                        break
                 elif kind == "mark":
                     self.log.append((time.monotonic(), "mark", step[1]))
                 elif kind == "wait_for":
